@@ -116,14 +116,48 @@ def make_net(medium):
     return Net()
 
 
-def _od(idx, sub, odt):
-    from canopen.objectdictionary import ObjectDictionary, ODVariable
+def od_members(x):
+    """the members a record / array entry of the client's dictionary lists: [[sub, data type], ...]"""
+    sh, dt, sub = x.get("shape", "var"), x.get("dt"), x["sub"]
+    if sh == "rec":
+        return [[0, 0x05]] + ([[sub, dt]] if sub != 0 else [])
+    if sh == "arr_listed":
+        return [[0, 0x05], [1, dt]] + ([[sub, dt]] if sub > 1 else [])
+    if sh == "arr_template":                      # only sub 0 and 1 are described (CompactSubObj style)
+        return [[0, 0x05], [1, dt]]
+    raise ValueError(sh)
+
+
+def _od(idx, sub, odt, x=None):
+    from canopen.objectdictionary import ObjectDictionary, ODVariable, ODRecord, ODArray
     od = ObjectDictionary()
-    if odt is not None:
-        v = ODVariable("v", idx, sub)
-        v.data_type = odt
-        od.add_object(v)
+    sh = (x or {}).get("shape", "var")
+    if sh == "var":
+        if odt is not None:
+            v = ODVariable("v", idx, sub)
+            v.data_type = odt
+            od.add_object(v)
+        return od
+    obj = (ODRecord if sh == "rec" else ODArray)("o", idx)
+    for s_, dt_ in od_members(x):
+        v = ODVariable("m%d" % s_, idx, s_)
+        v.data_type = dt_
+        obj.add_member(v)
+    od.add_object(obj)
     return od
+
+
+def declared_type(x):
+    """CiA 301: the data type the dictionary declares for idx:sub (sub 0 of a record / array is the UNSIGNED8
+    count, every element 1..255 of an ARRAY has the array's element type, listed one by one or not)"""
+    sh = x.get("shape", "var")
+    if sh == "var":
+        return x.get("odt")
+    if x["sub"] == 0:
+        return 0x05
+    if sh == "rec":
+        return x.get("dt")
+    return x.get("dt") if 1 <= x["sub"] <= 255 else None
 
 
 def _do_download(client, x):
@@ -203,7 +237,7 @@ def impl(case):
             net.notify(0x581, bytearray(fr), 0.0)
         net.log = []
         del REC[:]
-        client.od = _od(x["idx"], x["sub"], x.get("odt"))
+        client.od = _od(x["idx"], x["sub"], x.get("odt"), x)
         failed = False
         try:
             res = _do_download(client, x) if x["op"] == "dl" else _do_upload(client, x)
@@ -286,11 +320,19 @@ def gxfer(x, rec):
                                               gbool(x["force"]), gzlist(sched))
     if x["via"] == "upload":
         mode = "UUpload"
-    elif x["buffering"] == 0:
+    elif x["buffering"] == 0 and x.get("reads") is None:
         mode = "URaw"
     else:
         mode = "(UReads %s)" % gzlist([r[1] for r in rec if r[0] == "R"])
-    return "(TUl %s %s %s %s)" % (gz(x["idx"]), gz(x["sub"]), gopt(x.get("odt")), mode)
+    return "(TUl %s %s %s %s)" % (gz(x["idx"]), gz(x["sub"]), godshape(x), mode)
+
+
+def godshape(x):
+    sh = x.get("shape", "var")
+    if sh == "var":
+        return "ONone" if x.get("odt") is None else "(OVarT (Some %s))" % gz(x["odt"])
+    ms = glist(["(%s, Some %s)" % (gz(a), gz(b)) for a, b in od_members(x)])
+    return "(%s %s)" % ("ORecT" if sh == "rec" else "OArrT", ms)
 
 
 def coq_case(case):
@@ -368,7 +410,7 @@ def oracle(case, obs):
                     if res != Abort(0x06020000):
                         return ("upload_missing_object", f"{where}: {res!r}")
                 else:
-                    want = expected_upload(v, t.get("style"), x.get("odt"))
+                    want = expected_upload(v, t.get("style"), declared_type(x) if x["via"] == "upload" else None)
                     if isinstance(res, Err) and res.kind == E_VALUE and x["via"] == "open" and x["buffering"] and not x.get("text"):
                         return ("buffered_read_raises", f"{where}: server holds {len(v)} bytes, style {t.get('style')}, "
                                 f"open(buffering={x['buffering']}).read({x.get('reads')}): {res!r}")
@@ -391,7 +433,7 @@ def oracle(case, obs):
                 v = exp.get(key)
                 if isinstance(res, bytes):
                     if v is not UNKNOWN and v is not None:
-                        want = expected_upload(v, t.get("style"), x.get("odt"))
+                        want = expected_upload(v, t.get("style"), declared_type(x) if x["via"] == "upload" else None)
                         if res != want:
                             return ("disturbed_success_with_wrong_data",
                                     f"{where} fault {fault}: got {res!r}, server holds {v.hex()}")
@@ -504,7 +546,8 @@ def dl_x(rng, n, variant, mux=None, data=None):
 
 DL_VARIANTS = ["download", "force", "b0_nosize", "b0_size", "b0_size_force", "b7_size", "b7_nosize", "b1024_nosize",
                "b1024_size", "text", "b1024_size_flush", "b1024_nosize_flush", "text_size_line"]
-UL_VARIANTS = ["upload", "raw", "b7_all", "b7_r5", "b1024_all", "b1024_r3", "text_all", "text_r6", "b7_r5_all", "b8_r9_all"]
+UL_VARIANTS = ["upload", "raw", "b7_all", "b7_r5", "b1024_all", "b1024_r3", "text_all", "text_r6", "b7_r5_all", "b8_r9_all",
+               "b0_r1", "b0_r3", "b0_r6", "b0_r7", "b0_r4_all"]
 
 
 def ul_x(rng, variant, mux, odt=None):
@@ -520,6 +563,9 @@ def ul_x(rng, variant, mux, odt=None):
     elif variant == "text_r6": x.update(buffering=1, text=True, reads=6)
     elif variant == "b7_r5_all": x.update(buffering=7, reads=-5)
     elif variant == "b8_r9_all": x.update(buffering=8, reads=-9)
+    elif variant.startswith("b0_r"):              # read(n) on the unbuffered stream itself
+        n = int(variant[4:].split("_")[0])
+        x.update(reads=-n if variant.endswith("_all") else n)
     else: raise ValueError(variant)
     return x
 
@@ -571,6 +617,17 @@ def gen_cases(rng, tier):
                 mux = rng.choice(MUXES)
                 cases.append(one("ul_trunc", [T(ul_x(rng, "upload", mux, odt), st)],
                                  store=[[mux_key(*mux), rdata(rng, n)]]))
+    # the same through records and arrays: members listed one by one or synthesised from the sub-index 1 template
+    for shape in ("rec", "arr_listed", "arr_template"):
+        for dt in (0x05, 0x06, 0x03, 0x10, 0x07, 0x15, 0x09, 0x0C):
+            sz = FIXED.get(dt, 1)
+            for sub in ((0, 1, 2, 5, 255) if shape != "rec" else (0, 1, 7)):
+                for n in sorted({sz, sz + 1, 4, 8}):
+                    for st in (STYLES[0], STYLES[2], STYLES[3]):
+                        idx = rng.choice(MUXES)[0]
+                        x = ul_x(rng, "upload", (idx, sub))
+                        x.update(shape=shape, dt=dt)
+                        cases.append(one("ul_trunc_" + shape, [T(x, st)], store=[[mux_key(idx, sub), rdata(rng, n)]]))
     # default buffering, read(n) close to the buffer size followed by read()
     for n, r in ((1100, -1023), (1100, -1020), (1030, -1024), (2100, -2047)):
         mux = rng.choice(MUXES)
